@@ -5,6 +5,7 @@ import (
 	"go/token"
 	"go/types"
 	"sort"
+	"strconv"
 	"strings"
 
 	"golang.org/x/tools/go/ssa"
@@ -27,8 +28,26 @@ func regSumm(p *Prog, d int) *Summ {
 	s.EngineAliases = false
 	// queue accessors are read where they are called
 	qh := queueHelpers(p)
-	s.HelperInline = func(f *ssa.Function) bool { return qh[f] }
+	core := openerCoreOf(p)
+	s.HelperInline = func(f *ssa.Function) bool { return qh[f] || (core != nil && f == core) }
 	return s
+}
+
+var openerCoreCache = map[*Prog]*ssa.Function{}
+var openerCoreBusy = map[*Prog]bool{}
+
+func openerCoreOf(p *Prog) *ssa.Function {
+	if f, ok := openerCoreCache[p]; ok {
+		return f
+	}
+	if openerCoreBusy[p] {
+		return nil
+	}
+	openerCoreBusy[p] = true
+	ra := resolveRegAnchors(p)
+	openerCoreBusy[p] = false
+	openerCoreCache[p] = ra.openerCore
+	return ra.openerCore
 }
 
 // regAnchors resolves the regulator's internal routines by role (never by name).
@@ -38,7 +57,9 @@ type regAnchors struct {
 	enqueuer   *ssa.Function          // appends incoming players to the waiting queue
 	drainer    *ssa.Function          // stores the undispatched remainder into the queue
 	dispatcher *ssa.Function          // invokes the assign-players callback
-	opener     *ssa.Function          // invokes the request-table callback
+	opener     *ssa.Function          // invokes the request-table callback (or the function that pops the players and calls the helper that does)
+	openerCore *ssa.Function          // the loop-free helper that holds the callback call, when split off
+	bulk       map[*ssa.Function]bool // poppers that cut the first n players off in one step
 	all        map[*ssa.Function]bool
 }
 
@@ -98,6 +119,13 @@ func (ra *regAnchors) classifyQueueStore(fn *ssa.Function, val ssa.Value, inLoop
 	case *ssa.Slice:
 		if inLoop {
 			ra.poppers[fn] = true
+		} else if lo, isC := constInt(v.Low); (!isC || lo != 1) && v.Low != nil && fn.Signature.Results().Len() == 1 && typeShort(fn.Signature.Results().At(0).Type()) == "[]string" {
+			// bulk pop: the first n players are cut off in one step and handed back
+			ra.poppers[fn] = true
+			if ra.bulk == nil {
+				ra.bulk = map[*ssa.Function]bool{}
+			}
+			ra.bulk[fn] = true
 		}
 	case *ssa.Call:
 		if bi, ok := v.Call.Value.(*ssa.Builtin); ok && bi.Name() == "append" {
@@ -198,6 +226,19 @@ func resolveRegAnchors(p *Prog) *regAnchors {
 			if fn.Signature.Results().Len() != 1 || typeShort(fn.Signature.Results().At(0).Type()) != "[]string" {
 				continue
 			}
+			// a pass-through does nothing else: a helper that also books the players it got
+			// (counters of a table) is a step of its caller and is read there
+			if fi := ix.Info[fn]; fi != nil {
+				stores := false
+				for _, w := range fi.Writes {
+					if !w.Fresh {
+						stores = true
+					}
+				}
+				if stores {
+					continue
+				}
+			}
 			ok, n := true, 0
 			for _, b := range fn.Blocks {
 				r, isRet := b.Instrs[len(b.Instrs)-1].(*ssa.Return)
@@ -236,6 +277,20 @@ func resolveRegAnchors(p *Prog) *regAnchors {
 			}
 		}
 	}
+	// the callback call split off into a loop-free helper (openTable(players, level)): the opener
+	// is the function that pops the players and calls it; the helper is read where it is called
+	if ra.opener != nil && len(findLoops(ra.opener)) == 0 {
+		var cl []*ssa.Function
+		for _, c0 := range ix.Callers(ra.opener) {
+			if c0.Pkg == ra.opener.Pkg {
+				cl = append(cl, c0)
+			}
+		}
+		if len(cl) == 1 && len(findLoops(cl[0])) > 0 {
+			ra.openerCore = ra.opener
+			ra.opener = cl[0]
+		}
+	}
 	for _, f := range []*ssa.Function{ra.breaker, ra.enqueuer, ra.drainer, ra.dispatcher, ra.opener} {
 		if f != nil {
 			ra.all[f] = true
@@ -251,6 +306,9 @@ func resolveRegAnchors(p *Prog) *regAnchors {
 // table map are analysed where they are used.
 func (ra *regAnchors) helperFilter(p *Prog, owner *ssa.Function) func(*ssa.Function) bool {
 	return func(f *ssa.Function) bool {
+		if f == ra.openerCore && f != nil {
+			return true
+		}
 		if !privateHelper(owner, f) || ra.all[f] {
 			return false
 		}
@@ -289,6 +347,27 @@ func (c *Ctx) refusalCheck(rule string, fn *ssa.Function, guardName string, isGu
 	p := c.P
 	c.touch(fnKey(fn))
 	s := regSumm(p, 0)
+	{
+		// a guard may be a small predicate (isRegistrationClosed()): loop-free, store-free, bool
+		base := s.HelperInline
+		ix := p.Index()
+		s.HelperInline = func(f *ssa.Function) bool {
+			if base != nil && base(f) {
+				return true
+			}
+			if !privateHelper(fn, f) || len(findLoops(f)) > 0 || f.Signature.Results().Len() != 1 || !isBoolType(f.Signature.Results().At(0).Type()) {
+				return false
+			}
+			if fi := ix.Info[f]; fi != nil {
+				for _, w := range fi.Writes {
+					if !w.Fresh {
+						return false
+					}
+				}
+			}
+			return true
+		}
+	}
 	paths, cut := s.Function(fn)
 	if cut != "" {
 		c.undecided(rule, fnKey(fn), p.FnPos(fn), "summary cut: "+cut)
@@ -746,6 +825,7 @@ func runRegLockstep(c *Ctx, rule string) {
 	} else {
 		c.touch(fnKey(at))
 		s := regSumm(p, 0)
+		s.HelperInline = ra.helperFilter(p, at) // sheet constructors, registration helpers, planning predicates
 		var bad []string
 		n := 0
 		for _, l := range s.loops(at) {
@@ -915,6 +995,14 @@ func runRegQueue(c *Ctx) {
 						if !head {
 							bad = append(bad, "the queue's head is dropped without being handed out ("+e.Pos+")")
 						}
+					case strings.HasPrefix(v.String(), "slice(recv.waitingQueue, ") && strings.HasSuffix(v.String(), ", _, _)") && resolveRegAnchors(p).bulk[w]:
+						// bulk pop: queue[n:] is kept and queue[:n] handed out, 0 <= n <= len(queue) on
+						// every assignment of the path's condition
+						kinds["pop"] = true
+						nStr := strings.TrimSuffix(strings.TrimPrefix(v.String(), "slice(recv.waitingQueue, "), ", _, _)")
+						if msg := bulkPopOK(ps, nStr); msg != "" {
+							bad = append(bad, msg+" ("+e.Pos+")")
+						}
 					case strings.HasPrefix(v.String(), "loopval:") || func() bool {
 						st, ok := e.Instr.(*ssa.Store)
 						return ok && remainderOnly(st.Val, resolveRegAnchors(p).dispatcher, nil, 0)
@@ -1014,4 +1102,65 @@ func progOf(fn *ssa.Function) *Prog {
 		return p
 	}
 	return nil
+}
+
+// bulkPopOK: on path ps the queue becomes queue[n:]; the path must hand out exactly queue[:n]
+// (possibly copied) and its condition must imply 0 <= n <= len(queue) (grid).
+func bulkPopOK(ps *PathSum, n string) string {
+	if len(ps.Ret) != 1 {
+		return "a bulk pop does not return the players it removed"
+	}
+	r := ps.Ret[0].String()
+	want := "slice(recv.waitingQueue, _, " + n + ", _)"
+	if r != want && r != "append(list(), "+want+")" && r != "append(makeslice, "+want+")" {
+		return "the players handed out are " + r + ", not the first " + n + " of the queue"
+	}
+	nv := ps.Ret[0]
+	_ = nv
+	ints, bools := tableVars([]*PathSum{ps})
+	has := func(t string) bool {
+		for _, x := range ints {
+			if x == t {
+				return true
+			}
+		}
+		return false
+	}
+	qlen := "len(recv.waitingQueue)"
+	if !has(qlen) {
+		ints = append(ints, qlen)
+	}
+	// n as an affine expression over the grid terms
+	var nAff *Aff
+	if k, err := strconv.ParseInt(n, 10, 64); err == nil {
+		nAff = affConst(k)
+	} else {
+		nAff = affTerm(n)
+		if !has(n) {
+			ints = append(ints, n)
+		}
+	}
+	msg := ""
+	enumGridR(ints, func(name string) (int64, int64) {
+		if name == qlen {
+			return 0, 4
+		}
+		return -2, 5
+	}, bools, nil, func(a Asg) bool {
+		holds, ok := evalPath(ps, a)
+		if !ok || !holds {
+			return true
+		}
+		v, ok := evalAff(nAff, a)
+		if !ok {
+			msg = "the number of players cut off is not a closed form"
+			return false
+		}
+		if v < 0 || v > a.I[qlen] {
+			msg = fmt.Sprintf("%d players are cut off a queue of %d", v, a.I[qlen])
+			return false
+		}
+		return true
+	})
+	return msg
 }
